@@ -1,7 +1,10 @@
-"""Extra kernels needed by checks/c07.py (ATen ops reached only through torch.optim / lr_scheduler code)."""
+"""Kernels needed only by checks/c07.py (ATen ops reached through torch.optim / lr_scheduler code).
+
+None turned out to be missing: on SymT parameters `torch.optim.SGD` / `Adam` take their single-tensor path and emit
+`add_, mul_, add(alpha), neg, clone, lerp_, addcmul_, addcdiv_, sqrt, div, zeros_like`, all of which symtorch/ops.py
+already evaluates; the lr schedulers are pure Python.  (`random_`, emitted by torch's DataLoader when it draws its base
+seed, runs as a concrete fallback.)  The module is kept as the place for such kernels and is imported by the check.
+"""
 from __future__ import annotations
 
-import numpy as np  # noqa: F401
-
-from . import term as T  # noqa: F401
 from .symt import KERNELS, kernel  # noqa: F401
